@@ -130,7 +130,7 @@ def rebase_closures(fn):
 
 def ob_write_mid(ctx, res):
     """C01-F3 (callee side)"""
-    fn = ctx.ast.fn(W, "write_mid")
+    fn = ctx.ast.fn(W, "write_mid", inline=True, keep=("get_rtreeindex", "write_rtreeindex", "write_chrom_tree", "rtree_block_size"))
     rc = rebase_closures(fn)
     if len(rc) != 1 or rc[0][1] is None or rc[0][2] is None:
         res.fail("writeMid/rebase", fn, "expected the re-basing closure `section.offset = cur; cur += section.size; section`")
@@ -145,7 +145,8 @@ def ob_write_mid(ctx, res):
     if not (mp is not None and mp.k == "mcall" and mp["method"] == "map" and re.fullmatch(r"p\d+", origin(fn, mp["recv"]))):
         res.fail("writeMid/rebase-map", cl, "re-basing must be mapped over the raw section iterator parameter")
         return
-    st = stmt_of(mp)
+    from ..astq import value_stmt_of
+    st = value_stmt_of(mp)
     sname = up(st["pat"]) if st is not None and st.k == "let" else None
     gi = list(calls(fn.body, func="get_rtreeindex"))
     wi = list(calls(fn.body, func="write_rtreeindex"))
@@ -315,7 +316,7 @@ def ob_header_args(ctx, res):
         ob_write_mid(ctx, r2)
         mid = ctx.cache.get("write_mid_pos")
     if mid is None:
-        res.fail("headerArgs/write_mid", ctx.ast.fn(W, "write_mid"), "write_mid return positions not recognised")
+        res.undecided("headerArgs/write_mid", ctx.ast.fn(W, "write_mid"), "write_mid return positions not recognised")
         return
     from .wlayout import ob_write_pre_bw, ob_write_pre_bb
     for key, f in (("write_pre_pos_bw", ob_write_pre_bw), ("write_pre_pos_bb", ob_write_pre_bb)):
